@@ -47,6 +47,7 @@ type task struct {
 
 	blockSite string
 	waitStep  int64
+	stalling  bool // inside an injected stall (its own wake-up is not stalled again)
 
 	// PCT-like priority used by the "prio" pick mode.
 	prio uint64
@@ -633,9 +634,11 @@ func (s *Sim) maybeStall(t *task, site string) {
 	s.record(Rec{Kind: KNote, Site: site, Note: "sim-stall", Val: int64(d)}, t)
 	s.mix(uint64(opSleep), uint64(d)^uint64(t.id)<<48)
 
+	t.stalling = true
 	s.blocked(t, site)
 	time.Sleep(d)
 	s.resume(t)
+	t.stalling = false
 }
 
 //go:norace
@@ -733,6 +736,12 @@ func (s *Sim) resume(t *task) {
 
 	if s.aborted {
 		parkForever(t)
+	}
+
+	// wake-up latency: a goroutine that was woken (by a timer, a channel partner) does not
+	// run in the same instant on real hardware
+	if t.lib && !t.stalling {
+		s.maybeStall(t, "sim:stall-at-wakeup")
 	}
 }
 
